@@ -127,8 +127,10 @@ func verifDrawClass(rng *rand.Rand, class string) verifDraw {
 			}
 			text = t.Add(time.Duration(off)*time.Hour).Format("2006-01-02T15:04:05") + fmt.Sprintf("+%02d:00", off)
 		case 1:
-			t = t.Add(123 * time.Millisecond)
-			text = t.Format("2006-01-02T15:04:05.000Z")
+			if verifTimeDraws%3 != 0 { /* (the ends of the range are drawn as they are: to the second) */
+				t = t.Add(123 * time.Millisecond)
+				text = t.Format("2006-01-02T15:04:05.000Z")
+			}
 		}
 		d := str(text)
 		d.aux = t.UTC().Format(time.RFC3339Nano)
